@@ -12,7 +12,8 @@ RULE = ("parameter trees (sequence/choice nesting, every optional marking, incl.
         ' ; plus: bad calls with unwrapping disabled, extraArgumentErrors switched on a client in use, unknown keywords with None values and reserved-looking names; rejected calls under faults=False and with an injected reply; wrapper types carrying an attribute (dict key _id)'
         ' ; a clone switching the checking off leaves the original as it was'
         ' ; the per-call timeout keyword next to the arguments'
-        ' ; repeating parameters as tuples; a wrapper whose named type lives in another namespace')
+        ' ; repeating parameters as tuples; a wrapper whose named type lives in another namespace'
+        ' ; xsd:all below the top level; partial dicts and objects filled out of order')
 ASSUMPTIONS = ["ancestry items are compared by identity (`is`), modelled as unique ids",
                "Python dict preserves keyword insertion order (first leftover keyword is reported)"]
 PARTIAL = [
